@@ -132,6 +132,8 @@ def run_in(case, root):
     def fidx(p):
         if p is None:
             return "?"
+        if p.startswith("anonymous") and p[9:].isdigit():
+            return "a" + p[9:]          # invented repository name of a model loaded from a string
         p = os.path.abspath(p)
         return idx.get(p, "?")
 
@@ -153,7 +155,7 @@ def run_in(case, root):
             f = fidx(getattr(m, "_tx_filename", None))
             k = per_key.get((op, f), 0)
             per_key[(op, f)] = k + 1
-            t = "f%s@%d" % (f, op) + ("" if k == 0 else "#%d" % k)
+            t = ("s@%d" % op if f == "?" else "f%s@%d" % (f, op)) + ("" if k == 0 else "#%d" % k)
         tokens[id(m)] = t
         keep.append(m)
         return t
@@ -169,6 +171,10 @@ def run_in(case, root):
     def describe(m, op, oracle):
         d = {"tok": tok(m, op), "file": fidx(getattr(m, "_tx_filename", None))}
         repo = getattr(m, "_tx_model_repository", None)
+        if d["file"] == "?" and repo is not None:
+            reg = [fn for fn, x in repo.all_models.filename_to_model.items() if x is m]
+            if reg:
+                d["file"] = fidx(reg[0])
         d["local"] = [[fidx(fn), tok(x, op)] for fn, x in repo.local_models.filename_to_model.items()] if repo else []
         tg = []
         for r in m.refs:
@@ -182,7 +188,7 @@ def run_in(case, root):
             # identity, observed on the objects themselves
             if repo is not None and not any(tm is b for b in bmodels):
                 fn = tm._tx_filename
-                reg = repo.all_models.filename_to_model.get(os.path.abspath(fn)) if fn else None
+                reg = repo.all_models.filename_to_model.get(os.path.abspath(fn)) if fn else tm
                 if reg is not tm and tm is not m:
                     oracle.append("target %s of %s is not the registered model of its file" % (t.name, d["tok"]))
         d["targets"] = tg
@@ -201,7 +207,10 @@ def run_in(case, root):
         builtins.open = counting_open
         res = None
         try:
-            m = mm.model_from_file(paths[o["file"]])
+            if o["op"] == "loadstr":
+                m = mm.model_from_str(case["strs"][o["str"]][o["version"]])
+            else:
+                m = mm.model_from_file(paths[o["file"]])
             res = "ok"
         except TextXSyntaxError as e:
             res = "err:syntax:%s" % fidx(e.filename)
